@@ -30,6 +30,7 @@ func runC02(p *core.Program, r *core.Report) {
 	c02R4(p, r, pl)
 	c02R5(p, r, pl)
 	c02R6(p, r, pl)
+	c02R10(p, r, pl)
 	// R7: Execute returns the error of a failed generator from inside its loops over iterators (the local packages, the
 	// types of a package): an iterator that goes on after the loop was left panics instead
 	iteratorProtocol(p, r, "R7", 40)
